@@ -3,9 +3,9 @@
 package message
 
 import (
-	"fmt"
 	"context"
 	"errors"
+	"fmt"
 	"sync"
 
 	"github.com/ThreeDotsLabs/watermill"
@@ -51,15 +51,16 @@ type c02Script struct {
 	outcome  int // 0 return nil error, 1 return an error, 2 panic
 	nOut     int // messages returned
 	panicVal int
-	nMw      int // pass-through middlewares around the handler function
+	nMw      int  // pass-through middlewares around the handler function
 	mwAdds   bool // the outermost middleware appends one message to the output
-	pubOut   int // publisher: 0 accept, 1 error, 2 panic, 3 context.Canceled, 4 an error wrapping context.Canceled
-	errKind  int // the error the handler returns: 0 a plain one, 1 context.Canceled, 2 wrapping context.Canceled
+	pubOut   int  // publisher: 0 accept, 1 error, 2 panic, 3 context.Canceled, 4 an error wrapping context.Canceled
+	errKind  int  // the error the handler returns: 0 a plain one, 1 context.Canceled, 2 wrapping context.Canceled
 	shareOut bool // the function returns the consumed message object itself as output
+	emptyOut bool // the function builds its outputs in an empty, non-nil slice (with nOut == 0 it returns that, not nil)
 }
 
 func c02ReadScript(prefix string, maxOut int) c02Script {
-	return c02Script{
+	sc := c02Script{
 		pre:      vrt.Int(prefix+"pre", 0, 2),
 		outcome:  vrt.Int(prefix+"outcome", 0, 2),
 		nOut:     vrt.Int(prefix+"nout", 0, maxOut),
@@ -69,6 +70,10 @@ func c02ReadScript(prefix string, maxOut int) c02Script {
 		pubOut:   vrt.Int(prefix+"pubout", 0, 4),
 		errKind:  vrt.Int(prefix+"errkind", 0, 2),
 	}
+	if prefix == "" { // the single-message harness only (the choice is independent of what else is in flight)
+		sc.emptyOut = vrt.Bool("outputs.in.an.empty.non-nil.slice")
+	}
+	return sc
 }
 
 type c02Run struct {
@@ -91,6 +96,9 @@ func c02Chain(s c02Script, run *c02Run) HandlerFunc {
 			panic(c02PanicValue(s.panicVal))
 		}
 		var out []*Message
+		if s.emptyOut {
+			out = make([]*Message, 0, 2) // "no outputs" is a matter of length, not of nil-ness
+		}
 		for i := 0; i < s.nOut; i++ {
 			out = append(out, NewMessage("o", nil))
 		}
